@@ -90,7 +90,7 @@ func transitionCases(shard, shards int, full bool, f func([]byte)) {
 				for _, suf := range sufs {
 					s := ctx[0] + pre + string([]byte{byte(b)}) + suf + ctx[1]
 					f([]byte(s))
-					if full && ctx[1] != "" {
+					if full && ctx[1] != "" && b < 128 {
 						f([]byte(ctx[0] + pre + string([]byte{byte(b)}) + suf))
 					}
 				}
